@@ -242,7 +242,8 @@ pub open spec fn pushed_at(b: VM, p: Position) -> bool { b.stack@.len() > 0 && b
 //@   sig <<<
         ensures
             final(self).pos_map == old(self).pos_map, final(self).path == old(self).path,
-            r is Ok ==> final(self).ptr == Some(ptr) && ptr < old(self).pos_map.ops@.len(),
+            r is Ok <==> ptr < old(self).pos_map.ops@.len(),
+            r is Ok ==> final(self).ptr == Some(ptr),
             r is Err ==> final(self).ptr == old(self).ptr,
             at_op(*old(self)) ==> (r matches Err(e) ==> raised_at(e, cur_pos(*old(self)))),
 //@   >>>
@@ -523,6 +524,572 @@ pub open spec fn cond_pos(a: VM, b: VM, r: Result<(), Error>) -> bool {
             r matches Err(e) && raised_at(e, opnd_pos(*old(self), 1)) && e.message == opnd(*old(self), 1)->P_0->Str_0,
 //@   >>>
 //@   mutant fail_at_default_position "Error::new(msg.clone(), err_pos)" => "Error::new(msg.clone(), Position::new(0, 0, 0))" expect op_bang
+//@ end
+
+
+// ---------- names ----------
+//@ extract src/build/opcode/scope.rs :: impl Stack :: fn new
+//@   subst "BTreeMap::new()" => "VMap::new()"
+//@ end
+//@ extract src/build/opcode/scope.rs :: impl Stack :: fn get
+//@   subst "self.curr.get(name).cloned()" => "self.curr.get_cloned(name)"
+//@ end
+//@ extract src/build/opcode/scope.rs :: impl Stack :: fn is_bound
+//@ end
+//@ extract src/build/opcode/scope.rs :: impl Stack :: fn add
+//@ end
+//@ extract src/build/opcode/scope.rs :: impl Stack :: fn snapshot
+//@ end
+impl Clone for Stack {
+    #[verifier::external_body]
+    fn clone(&self) -> (r: Self) ensures r == *self { unimplemented!() }
+}
+// the &'static BTreeSet built by reserved_words() (its content: unit scope)
+pub uninterp spec fn is_reserved(s: Seq<char>) -> bool;
+impl ReservedWords {
+    #[verifier::external_body]
+    pub fn contains(&self, s: &str) -> (r: bool) ensures r == is_reserved(s@) { unimplemented!() }
+}
+impl Clone for ReservedWords {
+    #[verifier::external_body]
+    fn clone(&self) -> (r: Self) ensures r == *self { unimplemented!() }
+}
+impl Copy for ReservedWords {}
+impl<T> RefCell<T> {
+    #[verifier::external_body]
+    pub fn borrow(&self) -> &T { unimplemented!() }
+}
+impl<O, E> Environment<O, E> {
+    // environment.rs (unit env_lookup): the tuple of the process environment
+    #[verifier::external_body]
+    pub fn get_env_vars_tuple(&self) -> Value { unimplemented!() }
+}
+// Vec::last().cloned() on (Rc<Value>, Position) pairs (tuple clone; R9' model)
+#[verifier::external_body]
+pub fn verif_last_cloned(v: &Vec<(Rc<Value>, Position)>) -> (r: Option<(Rc<Value>, Position)>)
+    ensures v@.len() > 0 ==> r == Some(v@.last()), v@.len() == 0 ==> r is None
+{ v.last().cloned() }
+
+// an unknown name is reported where the name is USED
+//@ extract src/build/opcode/vm.rs :: impl VM :: fn get_binding
+//@   rule R1
+//@   subst "self.self_stack.last().cloned()" => "verif_last_cloned(&self.self_stack)"
+//@   ret r
+//@   sig <<<
+        ensures r matches Err(e) ==> raised_at(e, *pos)
+//@   >>>
+//@   mutant unknown_name_at_default_position "Err(Error::new( verif_msg(), pos.clone(), ))" => "Err(Error::new( verif_msg(), Position::new(0, 0, 0), ))" expect get_binding
+//@ end
+// ... and the value of a name is pushed with the position of that use - not with the position of its definition
+// (another statement) and not with the default position the `env` tuple is given
+//@ extract src/build/opcode/vm.rs :: impl VM :: fn op_deref
+//@   subst "let (val, _) = self.get_binding(&name, env, pos)?.clone();" => "let (val, _) = self.get_binding(&name, env, pos)?;"
+//@   ret r
+//@   sig <<<
+        ensures frame(*old(self), *final(self)),
+            r matches Err(e) ==> raised_at(e, *pos),
+            r is Ok ==> pushed_at(*final(self), *pos),
+//@   >>>
+//@   mutant deref_pushes_definition_position "let (val, _) = self.get_binding(&name, env, pos)?; self.push(val, pos.clone())" => "let (val, dpos) = self.get_binding(&name, env, pos)?; self.push(val, dpos)" expect op_deref
+//@ end
+//@ extract src/build/opcode/vm.rs :: impl VM :: fn binding_push
+//@   rule R1
+//@   ret r
+//@   sig <<<
+        ensures
+            final(self).stack == old(self).stack && final(self).ops == old(self).ops,
+            // a reserved word is reported at the name, a rebinding at the value
+            r matches Err(e) ==> raised_at(e, if is_reserved(name@) { *name_pos } else { *pos }),
+//@   >>>
+//@ end
+//@ extract src/build/opcode/vm.rs :: impl VM :: fn op_bind
+//@   ret r
+//@   sig <<<
+        // translator invariant: the name (a symbol), then the value's code
+        requires old(self).stack@.len() >= 2, opnd(*old(self), 2) is S,
+        ensures
+            r matches Err(e) ==> raised_at(e, if is_reserved(opnd(*old(self), 2)->S_0@) { opnd_pos(*old(self), 2) } else { opnd_pos(*old(self), 1) }),
+//@   >>>
+//@   mutant bind_positions_swapped "strict, &val_pos, &name_pos" => "strict, &name_pos, &val_pos" expect op_bind
+//@ end
+
+// ---------- selectors: a missing field / index is reported at the selector op; a found value stands at the index ----------
+//@ extract src/build/opcode/vm.rs :: impl VM :: fn op_index
+//@   rule R1 R3
+//@   subst "if key == s {" => "if verif_rcstr_eq(key, s) {"
+//@   subst "match *right.as_ref() {" => "match right.as_ref() {"
+//@   arm_rebind "P(Int(i)) =>" i
+//@   ret r
+//@   sig <<<
+        requires old(self).stack@.len() >= 2
+        ensures
+            r matches Err(e) ==> raised_at(e, pos),
+            r is Ok ==> pushed_at(*final(self), pos) || pushed_at(*final(self), opnd_pos(*old(self), 1)),
+//@   >>>
+//@   loop 1 iter it <<<
+                        invariant
+                            self.stack@ =~= old(self).stack@.subrange(0, old(self).stack@.len() - 2), old(self).stack@.len() >= 2,
+                            right_pos == opnd_pos(*old(self), 1),
+//@   >>>
+//@   after "if let C(List(elems, _)) = left.as_ref() {" <<<
+                    proof { axiom_vec_len_isize(elems); }
+//@   >>>
+//@   mutant missing_field_at_default_position "Err(Error::new( verif_msg(), pos, ))" => "Err(Error::new( verif_msg(), Position::new(0, 0, 0), ))" expect op_index
+//@ end
+
+// ---------- tuples and lists ----------
+pub open spec fn tuple_wf(v: Value) -> bool { v matches C(Tuple(f, p)) && f@.len() == p@.len() }
+pub open spec fn field_name(v: Value) -> Option<Rc<str>> { match v { S(s) => Some(s), P(Str(s)) => Some(s), _ => None } }
+// a field that changes its type is reported at the NEW value
+//@ extract src/build/opcode/vm.rs :: impl VM :: fn merge_field_into_tuple
+//@   rule R1
+// R13': `iter_mut().enumerate()` has no Verus model; the same walk as an indexed loop over the same vector
+//@   subst "for (counter, fld) in src_fields.iter_mut().enumerate() {" => "let n__ = src_fields.len(); let mut i__: usize = 0; while i__ < n__ { let counter = i__; i__ += 1; let fld = &mut src_fields[counter];"
+//@   subst "fld.0 == name" => "verif_rcstr_eq(&fld.0, &name)"
+//@   ret r
+//@   sig <<<
+        requires old(src_fields)@.len() == old(pos_fields)@.len(),
+        ensures
+            r matches Err(e) ==> raised_at(e, *val_pos),
+            final(src_fields)@.len() == final(pos_fields)@.len(),
+//@   >>>
+//@   loop 1 <<<
+            invariant n__ == src_fields@.len(), i__ <= n__, src_fields@.len() == pos_fields@.len(),
+            decreases n__ - i__
+//@   >>>
+//@   mutant field_type_change_at_name "return Err(Error::new( verif_msg(), val_pos.clone(), ));" => "return Err(Error::new( verif_msg(), name_pos.clone(), ));" expect merge_field_into_tuple
+//@ end
+//@ extract src/build/opcode/vm.rs :: impl VM :: fn op_field
+//@   rule R3
+//@   ret r
+//@   sig <<<
+        requires
+            // translator invariant (caller obligation): InitTuple (or a copy's base), the field name, then the value's code
+            old(self).stack@.len() >= 3, field_name(opnd(*old(self), 2)) is Some, tuple_wf(opnd(*old(self), 3)),
+        ensures
+            r matches Err(e) ==> raised_at(e, opnd_pos(*old(self), 1)),
+            r is Ok ==> pushed_at(*final(self), opnd_pos(*old(self), 3)) && tuple_wf(opnd(*final(self), 1)),
+//@   >>>
+//@   body_start <<<
+        broadcast use clax::group_clone_axioms;
+//@   >>>
+//@ end
+//@ extract src/build/opcode/vm.rs :: impl VM :: fn op_element
+//@   rule R3
+//@   ret r
+//@   sig <<<
+        requires old(self).stack@.len() >= 2, opnd(*old(self), 2) is C, opnd(*old(self), 2)->C_0 is List,
+        ensures r is Ok, pushed_at(*final(self), opnd_pos(*old(self), 2)),
+            // the element keeps the position it was evaluated at
+            opnd(*final(self), 1) matches C(List(_, p2)) && p2@.len() > 0 && p2@.last() == opnd_pos(*old(self), 1),
+//@   >>>
+//@   body_start <<<
+        broadcast use clax::group_clone_axioms;
+//@   >>>
+//@ end
+
+// ---------- casts: a failed cast is reported at the operand ----------
+// `p.try_into()`: std's blanket TryInto picks the `TryFrom<&Primitive>` impl of convert.rs by the expected type (proved
+// in unit vm_data); whether it fails does not matter here, only that its error (convert::Error) has no position
+pub trait CastTo<T> { fn cast_to(&self) -> Result<T, ConvError>; }
+impl CastTo<i64> for Primitive { #[verifier::external_body] fn cast_to(&self) -> Result<i64, ConvError> { unimplemented!() } }
+impl CastTo<f64> for Primitive { #[verifier::external_body] fn cast_to(&self) -> Result<f64, ConvError> { unimplemented!() } }
+impl CastTo<bool> for Primitive { #[verifier::external_body] fn cast_to(&self) -> Result<bool, ConvError> { unimplemented!() } }
+impl VIntoRcStr for &Primitive {
+    uninterp spec fn v_text(&self) -> Seq<char>;
+    #[verifier::external_body]
+    fn v_into(self) -> (r: Rc<str>) { unimplemented!() }
+}
+//@ extract src/build/opcode/vm.rs :: impl VM :: fn do_cast
+//@   rule R1
+//@   subst all "p.try_into()?" => "q_conv(p.cast_to())?"
+//@   subst "p.into()" => "p.v_into()"
+//@   ret r
+//@   sig <<<
+        ensures frame(*old(self), *final(self)),
+            // the conversion's own error has no position yet (op_cast adds it), the "not a primitive" error has
+            r matches Err(e) ==> unpositioned(e) || raised_at(e, pos),
+            r is Ok ==> pushed_at(*final(self), pos),
+//@   >>>
+//@ end
+//@ extract src/build/opcode/vm.rs :: impl VM :: fn op_cast
+//@   ret r
+//@   sig <<<
+        requires old(self).stack@.len() >= 1
+        ensures frame(*old(self), *final(self)),
+            r matches Err(e) ==> raised_at(e, opnd_pos(*old(self), 1)),
+            r is Ok ==> pushed_at(*final(self), opnd_pos(*old(self), 1)),
+//@   >>>
+// the pinned form of the defect class: the conversion error travels up without a position
+//@   mutant cast_error_not_decorated "decorate_error!(pos => self.do_cast(t, &val, pos.clone()))" => "self.do_cast(t, &val, pos.clone())" expect op_cast
+//@ end
+
+
+// ---------- calls: a fault inside the callee keeps its position and gets the call site appended ----------
+// `positioned`: what every error that comes out of a nested interpreter run is (assume / guarantee: unit err_pos_run
+// proves it of VM::run from the handler contracts of this unit)
+pub open spec fn positioned(e: Error) -> bool { e.pos is Some }
+// the error went through a call made at `site`: its own position is still there, `site` is the last call site listed
+pub open spec fn called_via(e: Error, site: Position) -> bool {
+    e.pos is Some && e.call_stack@.len() > 0 && e.call_stack@.last() == site
+}
+// ENVIRONMENT (not a fault of the program, outside C17): `std::env::current_dir()` fails when the process has lost its
+// working directory; that io::Error becomes an error WITHOUT position (From<io::Error>).  Every contract downstream of
+// VM::fcall_impl is stated for a process whose working directory exists.
+pub uninterp spec fn cwd_ok() -> bool;
+#[verifier::external_body]
+fn verif_current_dir() -> (r: Result<VPathBuf, VIoError>) ensures cwd_ok() ==> r is Ok { unimplemented!() }
+// slice::to_vec: only the import stack is copied with it
+pub assume_specification<T: Clone> [<[T]>::to_vec] (s: &[T]) -> (r: Vec<T>);
+impl Builtins {
+    #[verifier::external_body]
+    pub fn new(strict: bool) -> (r: Self) ensures r.strict == strict { unimplemented!() }
+    #[verifier::external_body]
+    pub fn clone(&self) -> (r: Self) ensures r == *self { unimplemented!() }
+}
+#[verifier::external_body]
+fn reserved_words() -> ReservedWords { unimplemented!() }
+//@ extract src/build/opcode/vm.rs :: impl VM :: fn with_pointer
+//@   subst "with_pointer<P: Into<PathBuf>>(strict: bool, ops: OpPointer, working_dir: P)" => "with_pointer(strict: bool, ops: OpPointer, working_dir: VPathBuf)"
+//@   subst "working_dir: working_dir.into()," => "working_dir: working_dir,"
+//@   subst "runtime::Builtins::new(strict)" => "Builtins::new(strict)"
+//@   ret r
+//@   sig <<<
+        ensures r.stack@.len() == 0, r.ops == ops
+//@   >>>
+//@ end
+//@ extract src/build/opcode/vm.rs :: impl VM :: fn to_scoped
+//@   rule R4
+//@   ret r
+//@   sig <<<
+        ensures r.stack == self.stack, r.ops == self.ops
+//@   >>>
+//@ end
+//@ extract src/build/opcode/vm.rs :: impl VM :: fn with_import_stack
+//@   rule R4
+//@   ret r
+//@   sig <<<
+        ensures r.stack == self.stack, r.ops == self.ops
+//@   >>>
+//@ end
+//@ extract src/build/opcode/vm.rs :: impl VM :: fn to_new_pointer
+//@   rule R4
+//@   ret r
+//@   sig <<<
+        ensures r.stack == self.stack, r.ops == ops
+//@   >>>
+//@ end
+//@ extract src/build/opcode/vm.rs :: impl VM :: fn clean_copy
+//@   ret r
+//@   sig <<<
+        ensures r.stack@.len() == 0, r.ops == self.ops
+//@   >>>
+//@ end
+// VM::run (the interpreter loop) - ASSUMED here, proved in unit err_pos_run from the handler contracts of this unit:
+// whatever error comes out of a run has a position.  (`r is Ok ==> a result is on the stack`: translator invariant, as
+// in units scope / vm_data_call.)
+//@ extract src/build/opcode/vm.rs :: impl VM :: fn run
+//@   opaque_body
+//@   ret r
+//@   sig <<<
+        ensures r is Ok ==> final(self).stack@.len() > 0,
+            cwd_ok() ==> (r matches Err(e) ==> positioned(e)),
+            // a run never swaps the program it runs
+            final(self).ops.pos_map == old(self).ops.pos_map,
+//@   >>>
+//@ end
+//@ extract src/build/opcode/vm.rs :: impl VM :: fn fcall_impl
+//@   rule R1
+//@   subst "std::env::current_dir()?" => "q_io(verif_current_dir())?"
+//@   subst "let Func { ptr, bindings, snapshot, } = f;" => "let ptr = &f.ptr; let bindings = &f.bindings; let snapshot = &f.snapshot;"
+//@   ret r
+//@   sig <<<
+        requires
+            // translator invariant (caller obligation): one value per parameter is on the stack
+            old(stack)@.len() >= f.bindings@.len(),
+        ensures
+            // an argument bound to a reserved name is reported at the argument; everything else comes out of the body
+            cwd_ok() ==> (r matches Err(e) ==> positioned(e)),
+//@   >>>
+//@   loop 1 iter it <<<
+            invariant
+                it.seq().len() == bindings@.len(), bindings@ == f.bindings@,
+                stack@.len() + it.index@ == old(stack)@.len(), old(stack)@.len() >= f.bindings@.len(),
+//@   >>>
+//@ end
+pub open spec fn fcall_pre(vm: VM) -> bool {
+    // translator invariant (translate.rs Call arm): arguments, `Val(Int(count))`, the callee's code, FCall
+    vm.stack@.len() >= 2 && (opnd(vm, 2) matches P(Int(c)) && 0 <= c <= vm.stack@.len() - 2)
+}
+//@ extract src/build/opcode/vm.rs :: impl VM :: fn op_fcall
+//@   rule R1 R3(arg_length)
+//@   ret r
+//@   sig <<<
+        requires fcall_pre(*old(self))
+        ensures
+            // not a function / wrong number of arguments: at the call; a fault inside the callee: its own position,
+            // with the call site - the position of the callee expression `f` in `f(..)` - listed last
+            cwd_ok() ==> (r matches Err(e) ==> raised_at(e, pos) || called_via(e, opnd_pos(*old(self), 1))),
+            // the call's value stands at the call - not at a position inside the function body
+            r is Ok ==> pushed_at(*final(self), pos),
+//@   >>>
+//@   before "let arity =" <<<
+                proof { axiom_vec_len_isize(&f.bindings); }
+//@   >>>
+//@   mutant call_site_not_recorded "decorate_call!(f_pos => Self::fcall_impl(f, self.runtime.strict, &mut self.stack, env, &self.import_stack))?" => "Self::fcall_impl(f, self.runtime.strict, &mut self.stack, env, &self.import_stack)?" expect op_fcall
+//@   mutant call_site_replaces_fault_position "decorate_call!(f_pos =>" => "decorate_error!(f_pos =>" expect op_fcall
+//@   mutant call_result_at_body_position "let (val, _) = decorate_call!" => "let (val, pos) = decorate_call!" expect op_fcall
+//@ end
+// a nested scope (format strings, ...) runs the same program: its faults are not calls, nothing is appended
+//@ extract src/build/opcode/vm.rs :: impl VM :: fn op_new_scope
+//@   ret r
+//@   sig <<<
+        requires jump_pre(*old(self), jp)
+        ensures cwd_ok() ==> (r matches Err(e) ==> positioned(e)),
+//@   >>>
+//@ end
+
+
+// ---------- copies `base{..}` and module calls: VM::op_copy ----------
+// VM::symbols_to_tuple (proved in unit vm_data_call): builds the tuple of a module's bindings, cannot fail
+//@ extract src/build/opcode/vm.rs :: impl VM :: fn symbols_to_tuple
+//@   opaque_body
+//@ end
+// the positions op_copy itself may report: the copy op, the override tuple, the value of one of the overriding fields
+pub open spec fn is_override_pos(a: VM, p: Position) -> bool {
+    exists|k: int| 0 <= k < opnd(a, 1)->C_0->Tuple_1@.len() && (#[trigger] opnd(a, 1)->C_0->Tuple_1@[k]).1 == p
+}
+pub open spec fn copy_own_pos(a: VM, pos: Position, p: Position) -> bool {
+    p == pos || p == opnd_pos(a, 1) || is_override_pos(a, p)
+}
+//@ extract src/build/opcode/vm.rs :: impl VM :: fn op_copy
+//@   rule R1 R3
+//@   subst "fn op_copy<O, E>(" => "#[verifier::loop_isolation(false)] fn op_copy<O, E>("
+//@   subst "match *tgt.as_ref() {" => "match tgt.as_ref() {"
+// `into_iter().enumerate()` (consuming) has no Verus model: the same elements in the same order by reference + clone
+//@   subst all "for (counter, (name, val)) in overrides.into_iter().enumerate() {" => "for (counter, (name__r, val__r)) in overrides.iter().enumerate() { let name = name__r.clone(); let val = val__r.clone();"
+//@   subst all ".into()" => ".v_into()"
+//@   ret r
+//@   sig <<<
+        requires
+            // translator invariant (caller obligation, translate_copy): the base's code, then the override tuple
+            old(self).stack@.len() >= 2, tuple_wf(opnd(*old(self), 1)),
+            // value invariants of the base
+            opnd(*old(self), 2) is C ==> tuple_wf(opnd(*old(self), 2)) || opnd(*old(self), 2)->C_0 is List,
+            opnd(*old(self), 2) matches M(m) ==> m.flds@.len() == m.flds_pos_list@.len()
+                // (op_thunk / op_module: the out-expression of a module lies inside the module's program)
+                && (m.result_ptr matches Some(i) ==> i < m.ptr.pos_map.ops@.len()),
+        ensures ({
+            let a = *old(self); let b = *final(self);
+            match opnd(a, 2) {
+                // a tuple: an override that changes a field's type is reported at the overriding VALUE; the copy stands
+                // where the base stood
+                C(Tuple(_, _)) => (r matches Err(e) ==> e.call_stack@.len() == 0 && e.pos is Some && is_override_pos(a, e.pos->0))
+                    && (r is Ok ==> pushed_at(b, opnd_pos(a, 2))),
+                // a module call: op_copy's own complaints are at its own positions; a fault in the module's body or in its
+                // out-expression keeps its position and gets the call listed (`pkg_ptr is None`: the `mod.pkg`
+                // constructor of a module declared in a file is run undecorated - it only builds a function value);
+                // the call's value stands AT THE CALL, whichever way the module produces it
+                M(m) => cwd_ok() ==> (r matches Err(e) ==> positioned(e)
+                            && (m.pkg_ptr is None ==> (e.call_stack@.len() == 0 && copy_own_pos(a, pos, e.pos->0)) || called_via(e, pos)))
+                        && (r is Ok ==> pushed_at(b, pos)),
+                // anything else cannot be copied: reported at the copy
+                _ => r matches Err(e) && raised_at(e, pos),
+            }
+        })
+//@   >>>
+//@   body_start <<<
+        broadcast use clax::group_clone_axioms;
+//@   >>>
+//@   before "match tgt.as_ref() {" <<<
+        assert(override_pos_list@ == opnd(*old(self), 1)->C_0->Tuple_1@ && overrides@.len() == override_pos_list@.len());
+        assert(val_pos == opnd_pos(*old(self), 1) && tgt_pos == opnd_pos(*old(self), 2));
+//@   >>>
+//@   loop 1 indexed <<<
+                    invariant i__1 <= it__1@.len(), it__1@ == overrides@, flds@.len() == pos_list@.len(),
+                    decreases it__1@.len() - i__1
+//@   >>>
+//@   loop 2 indexed <<<
+                    invariant i__2 <= it__2@.len(), it__2@ == overrides@, flds@.len() == flds_pos_list@.len(),
+                    decreases it__2@.len() - i__2
+//@   >>>
+//@   before "self.merge_field_into_tuple(" nth 1 <<<
+                    assert(is_override_pos(*old(self), val_pos)) by { assert(opnd(*old(self), 1)->C_0->Tuple_1@[counter as int].1 == val_pos); }
+//@   >>>
+//@   before "self.merge_field_into_tuple(" nth 2 <<<
+                    assert(is_override_pos(*old(self), val_pos)) by { assert(opnd(*old(self), 1)->C_0->Tuple_1@[counter as int].1 == val_pos); }
+//@   >>>
+//@   mutant module_call_site_not_recorded "decorate_call!(pos => vm.run(env))?; if let Some(ptr) = result_ptr {" => "vm.run(env)?; if let Some(ptr) = result_ptr {" expect op_copy
+//@   mutant copy_of_scalar_at_default_position "_ => { return Err(Error::new( verif_msg(), pos, )); }" => "_ => { return Err(Error::new( verif_msg(), Position::new(0, 0, 0), )); }" expect op_copy
+//@   mutant tuple_copy_at_override_position "self.push(Rc::new(C(Tuple(flds, pos_list))), tgt_pos.clone())?;" => "self.push(Rc::new(C(Tuple(flds, pos_list))), val_pos.clone())?;" expect op_copy
+//@ end
+
+
+// ---------- the remaining data handlers ----------
+//@ extract src/build/opcode/vm.rs :: impl VM :: fn op_typ
+//@   subst "typ_name.into()" => "verif_str_into_rcstr(typ_name)"
+//@   ret r
+//@   sig <<<
+        requires old(self).stack@.len() >= 1
+        ensures r is Ok, pushed_at(*final(self), opnd_pos(*old(self), 1)),
+//@   >>>
+//@ end
+impl VIntoRcStr for &Value {
+    // convert.rs `impl From<&Value> for Rc<str>` (proved in unit vm_data): the text of a value
+    uninterp spec fn v_text(&self) -> Seq<char>;
+    #[verifier::external_body]
+    fn v_into(self) -> (r: Rc<str>) { unimplemented!() }
+}
+//@ extract src/build/opcode/vm.rs :: impl VM :: fn op_render
+//@   subst "val.as_ref().into()" => "val.as_ref().v_into()"
+//@   ret r
+//@   sig <<<
+        requires old(self).stack@.len() >= 1
+        ensures r is Ok, pushed_at(*final(self), opnd_pos(*old(self), 1)),
+//@   >>>
+//@ end
+//@ extract src/build/opcode/vm.rs :: impl VM :: fn op_thunk
+//@   ret r
+//@   sig <<<
+        requires jump_pre(*old(self), jp)
+        ensures frame_jump(*old(self), *final(self)), at_op(final(self).ops),
+            r matches Err(e) ==> raised_at(e, cur_pos(old(self).ops)),
+            pushed_at(*final(self), pos),
+//@   >>>
+//@ end
+//@ extract src/build/opcode/vm.rs :: impl VM :: fn op_push_self
+//@   ret r
+//@   sig <<<
+        requires old(self).stack@.len() >= 1
+        ensures r is Ok, final(self).stack@ =~= old(self).stack@,
+//@   >>>
+//@   body_start <<<
+        broadcast use clax::group_clone_axioms;
+//@   >>>
+//@ end
+//@ extract src/build/opcode/vm.rs :: impl VM :: fn op_pop_self
+//@   ret r
+//@   sig <<<
+        ensures r is Ok, final(self).stack == old(self).stack,
+//@   >>>
+//@ end
+// std `str::contains(&str)` (R9' model): its outcome does not matter to positions
+#[verifier::external_body]
+pub fn verif_str_contains(s: &Rc<str>, part: &Rc<str>) -> bool { s.contains(part.as_ref()) }
+// `in`: a needle that cannot be a field name is reported at the needle, a container that cannot contain at the container
+//@ extract src/build/opcode/vm.rs :: impl VM :: fn op_exist
+//@   rule R1 R3
+//@   subst "match *left.as_ref() {" => "match left.as_ref() {"
+//@   subst "for (nm, _) in flds {" => "for (nm, _) in flds.iter() {"
+//@   subst "for e in elems {" => "for e in elems.iter() {"
+//@   subst "nm == name" => "verif_rcstr_eq(nm, name)"
+//@   subst? "e == &right" => "e.as_ref().eq(right.as_ref())"
+//@   subst? "e == &left" => "e.as_ref().eq(left.as_ref())"
+//@   subst "s.contains(part.as_ref())" => "verif_str_contains(s, part)"
+//@   ret r
+//@   sig <<<
+        requires old(self).stack@.len() >= 2
+        ensures
+            r matches Err(e) ==> raised_at(e, opnd_pos(*old(self), 1)) || raised_at(e, opnd_pos(*old(self), 2)),
+            r is Ok ==> pushed_at(*final(self), pos),
+//@   >>>
+//@   loop 1 iter it <<<
+                        invariant true,
+//@   >>>
+//@   loop 2 iter it <<<
+                    invariant true,
+//@   >>>
+//@ end
+// slice::reverse (std): reverses in place
+pub assume_specification<T> [<[T]>::reverse] (s: &mut [T])
+    ensures final(s)@ == old(s)@.reverse();
+// `func (..) => ..`: a parameter list that is none is an internal fault, reported at the parameter list
+//@ extract src/build/opcode/vm.rs :: impl VM :: fn op_func
+//@   rule R1 R3
+//@   subst all ".into()" => ".v_into()"
+//@   subst "let mut bindings = Vec::new();" => "let mut bindings: Vec<Rc<str>> = Vec::new();"
+//@   subst "for e in elems {" => "for e in elems.iter() {"
+//@   ret r
+//@   sig <<<
+        requires old(self).stack@.len() >= 1, jump_pre(*old(self), jptr)
+        ensures
+            r matches Err(e) ==> raised_at(e, opnd_pos(*old(self), 1)) || raised_at(e, cur_pos(old(self).ops)),
+            r is Ok ==> pushed_at(*final(self), pos),
+//@   >>>
+//@   loop 1 iter it <<<
+                invariant self.stack@ =~= old(self).stack@.drop_last(), args_pos == opnd_pos(*old(self), 1), self.ops == old(self).ops,
+//@   >>>
+//@ end
+#[verifier::external_body]
+pub fn verif_path_text(p: &VPathBuf) -> Rc<str> { unimplemented!() }
+//@ extract src/build/opcode/translate.rs :: impl OpsMap :: fn new
+//@   subst "shape_map: BTreeMap::new()," => "shape_map: VShapeMap::new(),"
+//@   subst "links: BTreeMap::new()," => "links: VLinks::new(),"
+//@ end
+//@ extract src/build/opcode/translate.rs :: impl OpsMap :: fn with_ops
+//@   rule R4
+//@ end
+//@ extract src/build/opcode/pointer.rs :: impl OpPointer :: fn new
+//@ end
+// `module {..} => ..`: parameters that are no tuple are reported at what stands in their place
+//@ extract src/build/opcode/vm.rs :: impl VM :: fn op_module
+//@   rule R1 R3
+//@   subst "match *mod_val.as_ref() {" => "match mod_val.as_ref() {"
+//@   arm_rebind "T(ptr) =>" ptr
+//@   subst "if let Some(path) = self.ops.path {" => "if let Some(path) = &self.ops.path {"
+//@   subst "path.to_string_lossy().into()" => "verif_path_text(path)"
+//@   ret r
+//@   sig <<<
+        requires
+            old(self).stack@.len() >= 1, (opnd(*old(self), 1) is T ==> old(self).stack@.len() >= 2),
+            jump_pre(*old(self), jptr),
+        ensures
+            r matches Err(e) ==> raised_at(e, opnd_pos(*old(self), 1)) || raised_at(e, opnd_pos(*old(self), 2)) || raised_at(e, cur_pos(old(self).ops)),
+            r is Ok ==> pushed_at(*final(self), pos),
+//@   >>>
+//@   body_start <<<
+        broadcast use clax::group_clone_axioms;
+//@   >>>
+//@ end
+
+
+// ---------- constraints ----------
+// the paths the extracted handler names; ir::Val and ConstraintVal are only handed on here (unit constraint_vm)
+#[verifier::external_body]
+pub struct Val { _p: u8 }
+impl Val {
+    #[verifier::external_body]
+    pub fn from(v: &Value) -> Val { unimplemented!() }
+}
+impl ConstraintVal {
+    #[verifier::external_body]
+    pub fn contains_self_ref(&self) -> bool { unimplemented!() }
+    #[verifier::external_body]
+    pub fn check(&self, v: &Val) -> bool { unimplemented!() }
+}
+pub mod build { pub mod ir { pub use crate::{ConstraintVal, Val}; } }
+// a value that does not satisfy its constraint is reported at the VALUE (left under the constraint on the stack)
+//@ extract src/build/opcode/vm.rs :: impl VM :: fn op_check_constraint
+//@   rule R1
+//@   subst "let ir_val: crate::build::ir::Val = val.as_ref().into();" => "let ir_val: crate::build::ir::Val = Val::from(val.as_ref());"
+//@   subst "self.stack.last().unwrap().clone()" => "{ let t__ = self.stack.last().unwrap(); (t__.0.clone(), t__.1.clone()) }"
+//@   ret r
+//@   sig <<<
+        requires old(self).stack@.len() >= 1
+        ensures
+            r matches Err(e) ==> (if old(self).stack@.len() >= 2 { raised_at(e, opnd_pos(*old(self), 2)) } else { raised_at(e, pos) }),
+//@   >>>
+//@   mutant constraint_failure_at_constraint "let (constraint, _constraint_pos) = self.pop()?;" => "let (constraint, pos) = self.pop()?;" expect op_check_constraint
+//@ end
+// VM::op_build_constraint (unit constraint_vm) - NOT under contract here (its two loops over a consuming iterator need
+// that unit's whole apparatus): ASSUMED from reading - its one `Error::new(.., pos)` and its one `push(.., pos)`
+//@ extract src/build/opcode/vm.rs :: impl VM :: fn op_build_constraint
+//@   opaque_body
+//@   subst "arm_types: Vec<super::ConstraintArmType>" => "arm_types: Vec<ConstraintArmType>"
+//@   ret r
+//@   sig <<<
+        ensures r matches Err(e) ==> raised_at(e, pos), r is Ok ==> pushed_at(*final(self), pos),
+//@   >>>
 //@ end
 
 } // verus!
